@@ -551,7 +551,7 @@ theorem douExt_convertWO (cfg : Cfg) (d : Disk) (m : Mem) : DouExt m (convertWO 
 
 /-! ### every operation -/
 
-theorem exec_snap (s : State) (m : Mem) (op : Op) : (exec s m op).1.snap = s.snap := by
+theorem exec_snap_same (s : State) (m : Mem) (op : Op) : (exec s m op).1.snap = s.snap := by
   cases op <;> simp only [exec] <;> (repeat' split) <;> rfl
 
 /-- only `nextAddresses` registers an OnCommit closure -/
@@ -678,14 +678,14 @@ theorem stDou_step (s : State) (op : Op) (h : StDou s) : StDou (step s op).1 := 
     · rename_i hc
       refine ⟨fun m' hm' => stDou_exec s m hs op hd hp m' hm', ?_⟩
       intro hsn
-      rw [exec_snap] at hsn
+      rw [exec_snap_same] at hsn
       have hw : op.writes = false := by simpa [hsn] using hc
       rw [exec_pend s m op (not_writes_not_next hw)]; exact h.pend hsn
     · dsimp only
       have hex : StDou (exec { s with snap := some s.disk, pend := [] } m op).1 := by
         refine ⟨fun m' hm' => ?_, ?_⟩
         · exact stDou_exec { s with snap := some s.disk, pend := [] } m hs op hd (fun p hp => by simp at hp) m' hm'
-        · intro hsn; rw [exec_snap] at hsn; cases hsn
+        · intro hsn; rw [exec_snap_same] at hsn; cases hsn
       split
       · exact stDou_rollbackTx _ hex
       · exact stDou_commitTx _ hex
